@@ -136,6 +136,9 @@ func PFunc(f func() int) int { return -1 }
 //go:noinline
 func PSlice(s []int) int { return -1 }
 
+//go:noinline
+func PStructS(s S) int { return -1 }
+
 type PA struct {
 	X int
 	Y string
@@ -493,6 +496,56 @@ func TestC09(t *testing.T) {
 		}
 		b.Reset()
 	}
+	// ---- an anonymous struct with the fields of the declared (named) struct type, as a When/In argument, as a result and
+	// read back through Eval: compared and delivered as the declared type
+	{
+		b := mocker.Create()
+		var cerr interface{}
+		var w *mocker.When
+		func() {
+			defer func() { cerr = recover() }()
+			w = b.Func(PStructS).Return(0).When(struct {
+				A int
+				B string
+			}{4, "four"}).Return(1)
+			w.In(struct {
+				A int
+				B string
+			}{5, "five"}, S{6, "six"}).Return(2)
+		}()
+		rep.Eval(4)
+		rep.Class("anonymous-struct-as-when-argument")
+		if cerr != nil {
+			rep.Violate("C09/standin-rejected", fmt.Sprintf("an anonymous struct with the declared type's fields as When/In argument rejected: %v", firstLine(cerr)), nil)
+		} else if got := [5]int{PStructS(S{4, "four"}), PStructS(S{5, "five"}), PStructS(S{6, "six"}), PStructS(S{4, "for"}), PStructS(S{})}; got != [5]int{1, 2, 2, 0, 0} {
+			rep.Violate("C09/standin-when-arg-not-compared-as-declared-type", fmt.Sprintf("When(struct{A int; B string}{4,four}).Return(1), In(anonymous{5,five}, S{6,six}).Return(2), default 0: calls with S{4,four}, S{5,five}, S{6,six}, S{4,for}, S{} give %v, want [1 2 2 0 0]", got), nil)
+		}
+		b.Reset()
+		b = mocker.Create()
+		cerr = nil
+		var ev []interface{}
+		func() {
+			defer func() { cerr = recover() }()
+			w = b.Func(RStruct).Return(struct {
+				A int
+				B string
+			}{7, "seven"})
+			ev = w.Eval()
+		}()
+		rep.Eval(2)
+		rep.Class("anonymous-struct-as-result")
+		if cerr != nil {
+			rep.Violate("C09/standin-rejected", fmt.Sprintf("an anonymous struct with the declared type's fields as result rejected: %v", firstLine(cerr)), nil)
+		} else {
+			if got := RStruct(); got != (S{7, "seven"}) {
+				rep.Violate("C09/standin-altered", fmt.Sprintf("Return(struct{A int; B string}{7,seven}) delivered %+v", got), nil)
+			}
+			if len(ev) != 1 || reflect.TypeOf(ev[0]) != reflect.TypeOf(S{}) || ev[0].(S) != (S{7, "seven"}) {
+				rep.Violate("C09/eval-value-not-of-declared-type", fmt.Sprintf("Eval() after Return(struct{A int; B string}{7,seven}) on func() S gives %#v (types %v), want S{7,seven}", ev, typesOf(ev)), nil)
+			}
+		}
+		b.Reset()
+	}
 	// ---- stand-ins for structs that consist of one pointer-like word
 	{
 		theMap := map[string]int{"k": 1}
@@ -754,4 +807,12 @@ func firstLine(v interface{}) string {
 		s = s[:200]
 	}
 	return s
+}
+
+func typesOf(vs []interface{}) []string {
+	out := make([]string, len(vs))
+	for i, v := range vs {
+		out[i] = fmt.Sprint(reflect.TypeOf(v))
+	}
+	return out
 }
